@@ -270,6 +270,16 @@ def _leafy(rng: random.Random, key: str, depth: int) -> Node:
     r = rng.random()
     if r < 0.3 or depth <= 0:
         return Node(key, "atomic")
+    if depth > 1 and r < 0.5:
+        # a parallel state BELOW the history parent: deep history has to restore several leaves
+        # that share an ancestor strictly inside the parent
+        n = Node(key, "parallel")
+        for i in range(2):
+            reg = n.add(Node(f"{key}{'pq'[i]}", "compound"))
+            for j in range(2):
+                reg.add(Node(f"{key}{'pq'[i]}{j + 1}", "atomic"))
+            reg.initial = reg.kids[0].key
+        return n
     n = Node(key, "compound")
     for i in range(rng.randint(2, 3)):
         k = f"{key}{i + 1}"
@@ -365,7 +375,7 @@ def family_D(seed: int, count: int, *, density=0.35) -> List[Spec]:
                 if r < 0.2:
                     continue
                 t: Dict[str, Any] = {"actions": [f"tr:done:{nid}"]}
-                if r < 0.45:
+                if r < 0.45 or (nd is a and r < 0.6):
                     pass
                 elif r < 0.8 and sibs:
                     t["target"] = "#" + ".".join(rng.choice(sibs).path)
